@@ -61,8 +61,10 @@ def evaluate(name, everything, jobs):
     res = {}
     try:
         if r.returncode:
-            return name, prop, {"_error": r.stdout[-300:]}
-        for cid in checks_for(prop, everything):
+            # a patch that no longer applies must not leave yesterday's verdicts standing
+            res = {cid: dict(rc=2, verdict="error", first="PATCH DOES NOT APPLY: " + r.stdout[-200:].strip())
+                   for cid in checks_for(prop, everything)}
+        for cid in ([] if r.returncode else checks_for(prop, everything)):
             env = dict(os.environ, VERIF_REPO_SRC=wt + "/src", VERIF_NO_EVIDENCE="1", VERIF_SHRINK_S="10",
                        VERIF_REPLAY_DIR=os.path.join(wt, "replays"))
             p = subprocess.run(["./check", cid, "--quick", "--jobs", str(jobs)], cwd=SNAP or VERIF, env=env, text=True,
